@@ -196,6 +196,24 @@ void runCase(std::size_t i, Ctx& ctx)
 				ctx.transition(); ctx.count("negative-width/wrap-consistent-headers");
 				if (o.cls == 'R') ctx.violation("C08/negative-width-accepted", key, "returned width " + std::to_string(f.imageHeader.width) + " with " + std::to_string(f.pixels.size()) + " pixel bytes");
 			}
+		// headers whose row bit count width*depth is >= 2^32, with exactly the pixel bytes a pitch computed in 32 bits asks
+		// for: accepting one returns an object whose rows are not "the smallest multiple of four holding width x depth bits"
+		for (int d : { 4, 8 }) for (uint64_t k : { uint64_t(1), uint64_t(2), uint64_t(3) }) for (int64_t j : { int64_t(0), int64_t(1), int64_t(3), int64_t(5), int64_t(9) }) for (int64_t h : { int64_t(0), int64_t(1), int64_t(2), int64_t(-2), int64_t(3) }) {
+			int64_t w = int64_t((k << 32) / uint64_t(d)) + j; if (w > INT32_MAX) continue;
+			uint32_t bits32 = uint32_t(uint64_t(w) * uint64_t(d));
+			uint64_t pitch32 = ((uint64_t(bits32) + 7) / 8 + 3) & ~uint64_t(3);
+			uint64_t s = pitch32 * uint64_t(h < 0 ? -h : h);
+			uint64_t truePitch = ((uint64_t(w) * uint64_t(d) + 7) / 8 + 3) & ~uint64_t(3);
+			ref::RBmp b; b.depth = d; b.width = int32_t(w); b.height = int32_t(h);
+			for (int i = 0; i < (1 << d); ++i) b.palette.push_back({ uint8_t(i), 0, 0, 0 });
+			b.rows.assign(std::size_t(s), 0x11);
+			std::string key = "depth " + std::to_string(d) + " width " + std::to_string(w) + " height " + std::to_string(h) + " pixel bytes " + std::to_string(s) + " (row bits modulo 2^32; true pitch " + std::to_string(truePitch) + ")";
+			ctx.sub(key);
+			BitmapFile f;
+			auto o = mc::guarded([&] { f = readBmp(ref::encodeBmp(b)); });
+			ctx.transition(); ctx.count("wide-rows/wrap-consistent-headers");
+			if (o.cls == 'R' && uint64_t(f.pixels.size()) != truePitch * uint64_t(h < 0 ? -h : h)) ctx.violation("C08/accepted-with-wrong-row-length", key, "returned width " + std::to_string(f.imageHeader.width) + " with " + std::to_string(f.pixels.size()) + " pixel bytes");
+		}
 		ctx.state(); ctx.trace();
 	}
 	else {
